@@ -31,12 +31,13 @@ Dims == [
   alg   |-> {"RS256", "PS256", "ES256", "EdDSA", "HS256", "none"},
   edit  |-> {"none", "otherclaims"},
   flag  |-> {TRUE, FALSE},                \* op.Config.RequestObjectSupported
-  ruri  |-> {"absent", "registered", "unregistered"} ]   \* redirect_uri claim of the object: none / another registered URI of A / a URI nobody registered
+  ruri  |-> {"absent", "registered", "unregistered"},    \* redirect_uri claim of the object: none / another registered URI of A / a URI nobody registered
+  quri  |-> {"registered", "unregistered"} ]             \* redirect_uri parameter of the request itself
 
-Bases == { [iss |-> "A", cid |-> "A", aud |-> "issuer", rtype |-> "code", by |-> "a1", kid |-> "ka1", alg |-> "RS256", edit |-> "none", flag |-> TRUE, ruri |-> "absent"],
-           [iss |-> "A", cid |-> "A", aud |-> "issuer", rtype |-> "absent", by |-> "a2", kid |-> "ka2", alg |-> "ES256", edit |-> "none", flag |-> TRUE, ruri |-> "absent"],
+Bases == { [iss |-> "A", cid |-> "A", aud |-> "issuer", rtype |-> "code", by |-> "a1", kid |-> "ka1", alg |-> "RS256", edit |-> "none", flag |-> TRUE, ruri |-> "absent", quri |-> "registered"],
+           [iss |-> "A", cid |-> "A", aud |-> "issuer", rtype |-> "absent", by |-> "a2", kid |-> "ka2", alg |-> "ES256", edit |-> "none", flag |-> TRUE, ruri |-> "absent", quri |-> "registered"],
            \* an object that is perfectly consistent - for ANOTHER client (B) than the one making the request (A)
-           [iss |-> "B", cid |-> "B", aud |-> "issuer", rtype |-> "code", by |-> "b1", kid |-> "kb1", alg |-> "ES256", edit |-> "none", flag |-> TRUE, ruri |-> "absent"] }
+           [iss |-> "B", cid |-> "B", aud |-> "issuer", rtype |-> "code", by |-> "b1", kid |-> "kb1", alg |-> "ES256", edit |-> "none", flag |-> TRUE, ruri |-> "absent", quri |-> "registered"] }
 Dev1(S) == S \cup UNION {UNION {{[t EXCEPT ![f] = v] : v \in Dims[f]} : f \in DOMAIN Dims} : t \in S}
 
 Groups == {"all"}
@@ -57,18 +58,21 @@ Accepts(c) == c.cid = Outer /\ c.rtype \in {"absent", "code"} /\ c.iss = c.cid /
               /\ KeyInfo[c.by].owner = c.iss /\ c.kid = KeyInfo[c.by].kid /\ c.alg \in DefaultAlgs /\ TypeOfAlg(c.alg) = KeyInfo[c.by].type
               /\ c.edit = "none"
 \* the object's redirect_uri replaces the query's BEFORE the redirect-URI validation of either router
-Decide(c) == LET r == IF c.flag /\ Accepts(c) /\ c.ruri # "unregistered"
-                      THEN [class |-> "login", src |-> "obj", uri |-> IF c.ruri = "registered" THEN "objRegistered" ELSE "query"]
-                      ELSE [class |-> "refused", src |-> "none", uri |-> "none"] IN [P |-> r, L |-> r]
+\* a request that is refused is never answered with a redirect to a URI nobody registered (errTarget: none | registered | unregistered)
+Decide(c) == LET eff == IF c.ruri # "absent" THEN c.ruri ELSE c.quri
+                 r == IF c.flag /\ Accepts(c) /\ eff = "registered"
+                      THEN [class |-> "login", src |-> "obj", uri |-> IF c.ruri = "registered" THEN "objRegistered" ELSE "query", errTarget |-> "none"]
+                      ELSE [class |-> "refused", src |-> "none", uri |-> "none", errTarget |-> "none"] IN [P |-> r, L |-> r]
 Outcomes(c) == {Decide(c)}
 
 RulesRouter(r, c, o) ==
   { <<"C14.reqobj.override:" \o r, (o.class = "login" /\ o.src # "query") => MayOverride(c)>>,
     <<"C14.reqobj.whole:" \o r,    (o.class = "login") => o.src \in {"query", "obj"}>>,     \* never a mixture of both sources
-    <<"C14.reqobj.complete:" \o r, (MustOverride(c) /\ c.ruri # "unregistered") => (o.class = "login" /\ o.src = "obj")>>,
+    <<"C14.reqobj.complete:" \o r, (MustOverride(c) /\ (IF c.ruri # "absent" THEN c.ruri ELSE c.quri) = "registered") => (o.class = "login" /\ o.src = "obj")>>,
     <<"C14.reqobj.override.uri:" \o r, (o.class = "login" /\ o.uri # "query") => MayOverride(c)>>,
     \* C03: whatever the request (object) contains, the request that is stored - and later answered - names a registered redirect URI
-    <<"C03.reqobj.redirect:" \o r, (o.class = "login") => o.uri # "objUnregistered">>,
+    <<"C03.reqobj.redirect:" \o r, (o.class = "login") => o.uri \notin {"objUnregistered", "queryUnregistered"}>>,
+    <<"C03.reqobj.errorTarget:" \o r, o.errTarget # "unregistered">>,
     \* C02 names the request-object verifier too: believed only when signed by a key held for the requesting client
     <<"C02.reqobj.key:" \o r, (o.class = "login" /\ o.src # "query") => Signed(c)>>,
     <<"C09.nopanic:" \o r, o.class # "panic">> }
